@@ -1,5 +1,5 @@
 """The small-spec family shared by the end-to-end mapper checks (C01, C02, C16-C19)
-and helpers to obtain (cached) reference points and mapper results."""
+and helpers to obtain reference points and mapper results (memoised within one run only)."""
 
 from __future__ import annotations
 
@@ -87,7 +87,7 @@ QUICK_SIDS = [
     "MM1-222/tight", "MM1-422/tight", "MM1-422/tight-thr", "MM1-242/tight", "MM1-622/tight", "MV1-42/tight",
     "MV2-222/tight", "MV2-222/mid-thr", "MV2-222/s8", "MM2-4244/t15-e100",
 ]
-# a middle tier used by checks that only need mapper runs + cached references
+# a middle tier used by checks that only need mapper runs
 MEDIUM_SIDS = [
     "MM1-222/inf", "MM1-222/tight", "MM1-222/tight-e1-10", "MM1-422/tight", "MM1-422/mid", "MM1-422/tight-thr",
     "MM1-242/tight", "MM1-224/mid-leak", "MM1-622/tight", "MM1-262/mid", "MV1-42/tight", "MV1-62/mid-thr",
@@ -97,7 +97,7 @@ THOROUGH_SIDS = [s for s in FAMILY]
 
 
 def compute_refs(ctx, sids, orders="alpha"):
-    """Make sure reference points exist (cache) for all sids; returns sid -> data.
+    """Compute (or take from this run's memo) the reference points of all sids; returns sid -> data.
     Work is sharded over (spec, chunk of trees)."""
     out, todo = {}, []
     for sid in sids:
@@ -138,12 +138,14 @@ def compute_refs(ctx, sids, orders="alpha"):
             RS.store(w.sid, orders, d)
             out[w.sid] = RS.load_cached(w.sid, orders)
             st.transitions += len(recs_of[wi]) + w.n_chunks() + 1
-    for sid in sids:
-        d = out[sid]
+    # only what THIS call enumerated and evaluated is counted; a front already memoised
+    # earlier in the same run (the memo directory never outlives a run) adds nothing
+    for w in todo:
+        d = out[w.sid]
         st.configs += d["n_trees"]
         st.evaluations += d.get("n_model_evaluations", d["n_trees"])
     st.n_states = st.configs  # trees are distinct by construction
-    ctx.absorb("reference-mapspace" + ("" if todo else " (cached)"), st, time.time() - t0)
+    ctx.absorb("reference-mapspace" + ("" if todo else " (memoised earlier in this run)"), st, time.time() - t0)
     ctx.extra_cov.setdefault("reference_trees", {}).update(
         {sid: {"trees": out[sid]["n_trees"], "valid": out[sid]["n_valid"],
                "unfused_pairs_represented": out[sid]["n_unfused_pairs_represented"]} for sid in sids})
